@@ -133,6 +133,8 @@ func (c *Ctx) storeTarget(addr ssa.Value, m *ModSet) {
 			for i := 0; i < s.NumFields(); i++ {
 				m.add(c.fieldHeapName(elem, s.Field(i).Name()))
 			}
+		} else if arr, ok := elem.Underlying().(*types.Array); ok {
+			m.add("E$" + typeName(arr.Elem()))
 		} else {
 			m.add("P$" + typeName(elem))
 		}
